@@ -9,11 +9,11 @@ CHECKS = {
  "C08": dict(level="exploration", design="DESIGN.md §3 C08", technique="runtime monitoring: executable model oracle over every (key, ordinal) read after each generated block; delta-replay invariant",
    text="Every get_first/get_last/get_at/has_* answer of the real store, for every key and every ordinal after every generated block, equals the model's; deltas replayed on the pre-block content reproduce the post-block content with exact old values.",
    note="Trusts the model's reading of ordinal semantics (stable sort, get_at = after all ops with ordinal <= ord)."),
- "C09": dict(level="exploration", design="DESIGN.md §3 C09", technique="runtime monitoring: differential (ApplyOps replay vs original execution) on deltas, content and saved partial snapshots",
-   text="For every generated pre-state and block chain the replayed operation log yields byte-identical deltas and content on full stores, and an identical saved snapshot (keys, values, deleted prefixes) and merge result on partial stores.",
+ "C09": dict(level="exploration", design="DESIGN.md §3 C09", technique="runtime monitoring: differential (ApplyOps replay vs original execution) on deltas, content and saved partial snapshots; end-to-end replay (tier2 rebuilds stores from cached store outputs through pipeline/exec) judged by REF-LINEAR",
+   text="For every generated pre-state and block chain the replayed operation log yields byte-identical deltas and content on full stores, and an identical saved snapshot (keys, values, deleted prefixes) and merge result on partial stores. End to end: with only the cached outputs of store modules kept, re-running the request rebuilt every store by replay and streamed / read / left behind exactly the reference.",
    note="Replay and execution share the store code; the oracle is equality between two real executions."),
- "C11": dict(level="exploration", design="DESIGN.md §3 C11", technique="runtime monitoring: invariant SizeBytes()==sum(len k+len v) at every quiescent point of PRNG histories (blocks, merges, undos, loads); limit clause judged against true content size via hook VerifSetLimits",
-   text="The size invariant held after every step of every generated history, and a limited twin store rejected a block exactly when its true content size exceeded the limit.",
+ "C11": dict(level="exploration", design="DESIGN.md §3 C11", technique="runtime monitoring: invariant SizeBytes()==sum(len k+len v) at every quiescent point of PRNG histories (blocks, merges, undos, loads); limit clause judged against true content size via hook VerifSetLimits; the same size monitor after every new/undo step of fork histories through the real forkable and pipeline",
+   text="The size invariant held after every step of every generated history, and a limited twin store rejected a block exactly when its true content size exceeded the limit. In fork histories through the real pipeline (blocks several deep undone, re-applied, undone again) the reported size equalled the content after every step and no block was refused as too big.",
    note="Trusts Iter() as the real content; limits set through the verif-tagged hook."),
 }
 CHECKS["C01"]=dict(level="exploration", design="DESIGN.md §3 C01", technique="runtime monitoring: differential oracle (REF-LINEAR sequential run of the real executors) over recorded tier1 streams, host-call logs and decoded cache files of generated packages x request sequences x PRNG job-completion orders",
@@ -34,18 +34,18 @@ CHECKS["C13"]=dict(level="exploration", design="DESIGN.md §3 C13", technique="r
 CHECKS["C14"]=dict(level="exploration", design="DESIGN.md §3 C14", technique="runtime monitoring: invariant checker over exec.NewOutputModuleGraph staging of generated valid graphs x every output module, own reachability as oracle, watchdog for termination",
    text="For every generated valid graph and every output module: each needed module in exactly one layer strictly after everything it reads, unneeded modules absent, layers homogeneous, store layers close stages, an input exists at every initial block, and staging terminated.",
    note="Validity = generator rules + the code's own validators accept; hangs judged by a watchdog with re-run (inconclusive unless reproduced).")
-CHECKS["C18"]=dict(level="exploration", design="DESIGN.md §3 C18", technique="runtime monitoring: cross-codec differential (fast hand-written codec vs protobuf runtime / vtproto) on generated messages; workload repeated under checkptr and ASan builds",
+CHECKS["C18"]=dict(level="exploration", design="DESIGN.md §3 C18", technique="runtime monitoring: cross-codec differential (fast hand-written codec vs protobuf runtime / vtproto) on generated messages; workload repeated under checkptr and ASan builds; file-level round trips through the real execout.File and store Save/Load under injected first-attempt upload / download faults",
    text="On all generated cached-output maps and store contents the fast encoder's bytes decoded with the standard decoder to the same content and vice versa, every marshaller read back what it wrote, and reported sizes were exact; no checkptr/ASan report.",
    note="Cross-decoder directions use valid UTF-8 (schema restriction of protobuf string); sanitizer silence is not memory safety.")
-CHECKS["C07"]=dict(level="fault_enumeration", design="DESIGN.md §3 C07", technique="runtime monitoring with fault enumeration: every subset of the cache files of a golden run (incl. partial files from stand-alone jobs, truncated temp siblings) restored and the request re-run; differential oracle REF-LINEAR + cache auditor; interruption (cancel after k-th message) then re-run",
+CHECKS["C07"]=dict(level="fault_enumeration", design="DESIGN.md §3 C07", technique="runtime monitoring with fault enumeration: every subset of the cache files of a golden run (incl. partial files from stand-alone jobs, truncated temp siblings) restored and the request re-run; differential oracle REF-LINEAR + cache auditor; interruption (cancel after k-th message) then re-run; concurrent requests on one state directory inside the -race binary",
    text="For the enumerated universes EVERY subset of cache files was restored and the request re-run: it completed with the reference outputs and left only files that decode to the reference content; PRNG subsets of larger universes, shifted requests and interrupted-then-re-run requests likewise.",
    note="Atomic file writes assumed (dstore temp+rename), half-written files modelled by temp siblings; requests of the recorded finding shape C05/stage-index-shift are not generated.")
 CHECKS["C03"]=dict(level="exploration", design="DESIGN.md §3 C03", technique="runtime monitoring: generated fork trees and arrival orders resolved by the real bstream forkable, store state compared after EVERY step with a fork-free REF-LINEAR run of the applied chain (differential), client-model trace checker over undo signals",
    text="After every new/undo/stalled/final step of every generated history every store held exactly the typed content of a fork-free execution of the currently applied chain with an exact reported size, and a client applying the undo signals ended with exactly the reference outputs of the canonical chain; undo signals always designated a held block.",
    note="Fork points are blocks of the tree (a fresh fork resolver cannot name its initial LIB as a junction); REF-LINEAR per chain shares the executors with the system under test.")
-CHECKS["C05"]=dict(level="exploration", design="DESIGN.md §3 C05", technique="runtime monitoring with a schedule controller: the real Scheduler.Update is driven by the harness (two pools: pending commands / undelivered messages, PRNG picks) over real tier2 jobs and squashes, invariant monitors on scheduler state + differential final state vs REF-LINEAR; real-loop runs under the Go race detector",
+CHECKS["C05"]=dict(level="exploration", design="DESIGN.md §3 C05", technique="runtime monitoring with a schedule controller: the real Scheduler.Update is driven by the harness (two pools: pending commands / undelivered messages, PRNG picks) over real tier2 jobs and squashes, invariant monitors on scheduler state + differential final state vs REF-LINEAR; real-loop runs under the Go race detector; plus depth-first enumeration by re-execution with state-hash pruning on small grids",
    text="On every explored (grid, initial cache subset, worker count, schedule): no job started before the lower stages it loads were complete, each segment merged exactly once and in order, no invalid transition, clean quit with the reference stores at the hand-off and all requested outputs written; deadlocks are detected as exhausted pools or a walker polling with unchanging state. One recorded known finding (stage index shift).",
-   note="Commands are executed one at a time (overlap is modelled by delaying message delivery); async file writes are awaited between steps; bounded progress stands in for liveness.")
+   note="Commands are executed one at a time (overlap is modelled by delaying message delivery); async file writes are awaited between steps; bounded progress stands in for liveness. The systematic part is complete only modulo its state abstraction (unit matrix, store positions, pending messages / commands, walker progress) and only for grids it reports as enumerated completely.")
 CHECKS["C12"]=dict(level="exploration", design="DESIGN.md §3 C12", technique="runtime monitoring of the real resolution+planning functions chained as tier1 chains them: range-tiling and segment-alignment invariants from the property statement over lattice-biased PRNG tuples and enumerated cursor shapes; sampled accepted plans executed end-to-end in the in-process cluster",
    text="For every explored (mode, segment size, initial blocks, start, stop, finality) tuple the resolved start/hand-off and the plan tiled [start, stop) exactly (cached-output range, gated linear range), stores were planned exactly up to the hand-off, every job range was a whole segment, forked cursors produced the junction undo signal and restart, and sampled accepted plans executed to completion with reference outputs.",
    note="Graph shape fixed (output map over 0..3 stores); an error is always an acceptable planner answer; quick is a lattice-biased sample, not the exhaustive product.")
